@@ -138,8 +138,8 @@ def __init__(self, K):
 '''
 
 DES_CRYPT = '''
-def %s(self, X):
-    X = Bits(X)
+def %s(self, %s):
+    X = Bits(%s)
     assert X.size == self.blocksize
     k = PC1(self.K)
     blk = IP(X)
@@ -153,8 +153,8 @@ def %s(self, X):
     Y[32:64] = R
     return IPinv(Y).bytes()
 '''
-DES_ENC = DES_CRYPT % ('enc', 'range(16)')
-DES_DEC = DES_CRYPT % ('dec', 'reversed(range(16))')
+DES_ENC = DES_CRYPT % ('enc', 'M', 'M', 'range(16)')
+DES_DEC = DES_CRYPT % ('dec', 'C', 'C', 'reversed(range(16))')
 
 DES_SUBKEY = '''
 def subkey(k, r):
